@@ -1,7 +1,7 @@
 """Per-property tables used by ./check: model files the correspondence needs, trusted base, assumptions."""
 
 KERNEL = "Coq 8.16.1 kernel and vm_compute (used for Examples and for evaluating the model on case files); no native_compute; no axioms (Print Assumptions: closed under the global context)"
-GEN = "gen/ translator (go/ast): constants, struct-tag schemas, templates, uuid masks, lock shape re-extracted from /repo on every run; gen/funcs.go translates the BODIES of Validate, VerifyAssertionConditions, ValidateDecodedLogoutResponse/Request, validate*Attributes, RetrieveAssertionInfo, Values.Get/GetSize/GetAll and the key getters of saml.go (getEncryptionCert, GetEncryptionCertBytes, getSigningCert, GetSigningCertBytes, getSignerCert, GetEncryptionKey, GetSigningKey) to Gallina (GenFuncs.v over the combinators of GenPrelude.v: nil dereference = explicit panic outcome), trusted: its Go-subset semantics (GenPrelude.v) and its field-binding table from Go struct fields to Types.v accessors (exercised by the correspondence run, which renders real Go structs into those records); assumes one clock reading per call (sp.Clock.Now() -> now) and non-nil receiver/arguments"
+GEN = "gen/ translator (go/ast): constants, struct-tag schemas, templates, uuid masks, lock shape re-extracted from /repo on every run; gen/funcs.go translates FUNCTION BODIES to Gallina, four units regenerated on every run: GenFuncs.v (Validate, VerifyAssertionConditions, ValidateDecodedLogoutResponse/Request, validate*Attributes, RetrieveAssertionInfo, Values.Get/GetSize/GetAll, the key getters of saml.go), GenDecrypt.v (types.EncryptedKey.DecryptSymmetricKey, types.EncryptedAssertion.DecryptBytes: switches, type switch, slice / index / %, CryptBlocks), GenTree.v (ValidateEncodedResponse incl. its NSFindIterate handler closure, ValidateEncodedLogoutResponsePOST, ValidateEncodedLogoutRequestPOST) and GenBuild.v (buildAuthnRequest, buildLogoutRequest, buildLogoutResponse: pointer-based tree construction as functional updates at paths), over the combinators of GenPrelude*.v; every nil dereference, index, slice bound, zero divisor, dangling handle, unmarshal into a non-zero struct is an explicit panic outcome; P_GenFuncs / P_GenDecrypt / P_GenTree / P_GenBuild prove each translated body equal to the hand-written model for all inputs. Trusted: the Go-subset semantics (GenPrelude*.v), the binding tables (Go struct fields -> model accessors; calls into crypto / etree / goxmldsig / parseResponse / decryptAssertions / Sign* -> Section variables or model operations), one clock reading per call (sp.Clock.Now() -> now), non-nil receiver and struct-pointer arguments, no aliasing of locally created structs, Document.Root() of a parsed document has a non-nil parent different from itself, debugKeyFp total (modelled separately in Decrypt.v), fmt.Errorf texts not modelled"
 HARNESS = "Go harness (generators, projection of observables to Coq terms, spec oracle), go1.24.0 toolchain as /repo"
 
 PROFILE_MODEL = ["Base", "Time", "Types", "SchemaDefs", "ConcDefs", "Generated", "Profile", "GenPrelude", "GenFuncs"]
